@@ -98,7 +98,9 @@ def r11_1(ctx):
     ctx.require(0 < tmo <= 60, "RESET_TIMEOUT", f"RESET_TIMEOUT = {tmo}")
     f = repo.func(f"{UART}:Gateway.reset")
     ctx.fn(f)
-    models = [("*.create_future", lambda px, t, a, k, fr: fut("newfut")), ("await:*", Outcomes(OK(True), RAISE("TimeoutError"), RAISE("ConnectionResetError"), RAISE("CancelledError")))]
+    models = [("*.create_future", lambda px, t, a, k, fr: fut("newfut")), ("await:*", Outcomes(OK(True), RAISE("TimeoutError"), RAISE("ConnectionResetError"), RAISE("CancelledError"))),
+              # writing the RST frame can fail (transport gone or closing: _write_frame raises NcpFailure)
+              ("self._transport.send_reset", Outcomes(OK(None), RAISE("NcpFailure")))]
     for existing in (False, True):
         px = PX(repo, models=models, inline=same_class(stop=("_reset_cleanup",)))
         for p in px.explore(f, lambda: (self_obj(gw_cls(ctx), {"_reset_future": fut("oldfut") if existing else None}), {})):
@@ -107,6 +109,14 @@ def r11_1(ctx):
             reg = [e for e in p.events if e.kind == "write" and e.what == "self._reset_future"]
             aw = [e for e in p.events if e.kind == "await"]
             bad = None
+            if snd and str(snd[0].extra).startswith("raises"):
+                # the RST frame could not be written: the request fails, and it leaves no waiter behind (a later reset would
+                # piggy-back on it, send nothing and wait without a timeout)
+                if p.terminal != "raise" or p.store["self"].get("_reset_future") is not None or aw:
+                    bad = (f"send_reset() raised but reset() {p.terminal}s with the waiter attribute {p.store['self'].get('_reset_future')!r} "
+                           f"({len(aw)} awaits): a failed write must leave no pending waiter")
+                ctx.require(not bad, "reset:write-fails", f"Gateway.reset (RST write fails): {bad}", func=f, trace=p.trace(14))
+                continue
             if existing:
                 if snd or reg or len(aw) != 1 or getattr(aw[0].args[0], "tag", "") != "oldfut":
                     bad = f"second request: sends {len(snd)}, registers {len(reg)}, awaits {[getattr(e.args[0], 'tag', e.args) for e in aw]}"
